@@ -1708,6 +1708,28 @@ pub fn run<S: Suite>(t: &mut Tape, cfg: &Cfg, out: &mut RunOut) {
             out.violate("C15", format!("frost/{}/complete:verify_split", S::NAME), format!("share {} of {} fails verify_split (t={})", i + 1, n, tmin));
         }
     }
+    // single-signer path on the group key: seeded variant with seeds of every length class; deterministic,
+    // so signing twice must give the same bytes, and a decoded copy of the key must sign identically
+    {
+        let sl = [0usize, 1, 16, 31, 32, 33, 63, 64, 65, 128, 200][t.usize(11)];
+        let seed = rng.bytes(sl);
+        let m0 = { let l = [0usize, 1, 55, 64, 111, 128, 300][t.usize(7)]; rng.bytes(l) };
+        let s1 = S::sig_encode(S::gsk_sign_seeded(gsk, &seed, &m0));
+        let s2 = S::sig_encode(S::gsk_sign_seeded(gsk, &seed, &m0));
+        let s3 = match S::gsk_decode(&S::gsk_encode(gsk)) {
+            Some(g2) => S::sig_encode(S::gsk_sign_seeded(g2, &seed, &m0)),
+            None => Vec::new(),
+        };
+        let ok = S::gpk_verify_esig(gpk, &s1, &m0) && S::indep_verify(&gpk_enc, &s1, &m0) && S::plain_verify(&gpk_enc, &s1, &m0).unwrap_or(true);
+        out.ev(format_args!("dealer: single-signer seeded signature (seed {}B, msg {}B) {}", sl, m0.len(), crate::util::hex(&s1)));
+        if !ok || s1 != s2 || s1 != s3 {
+            out.violate(
+                "C15",
+                format!("frost/{}/sound:signature:single_signer_seeded", S::NAME),
+                format!("sign_seeded(seed {}B, msg {}B): verifies={} repeatable={} same-after-key-roundtrip={} sig {}", sl, m0.len(), ok, s1 == s2, s1 == s3, crate::util::hex(&s1)),
+            );
+        }
+    }
     // single-signer path on the group key
     {
         let m1 = rng.bytes(t.usize(40));
